@@ -19,7 +19,15 @@ ID = 'C08'
 LEVEL = 'model_checking'
 
 
+WATCHDOG_S = 5
+MAX_TIMEOUTS_PER_UNIT = 2
+
+
 class Timeout(Exception):
+    pass
+
+
+class UnitAborted(Exception):
     pass
 
 
@@ -256,11 +264,14 @@ def run_unit(unit, tier):
     signal.signal(signal.SIGALRM, _alarm)
 
     def one(data, payload, label=''):
-        signal.setitimer(signal.ITIMER_REAL, 30)
+        signal.setitimer(signal.ITIMER_REAL, WATCHDOG_S)
         try:
             viols, outcome = check_bytes(data)
         except Timeout:
-            viols, outcome = [('does-not-terminate', _s(data))], 'timeout'
+            viols, outcome = [('does-not-terminate', 'no result within %d s '
+                               'on input %s' % (WATCHDOG_S, _s(data)))], \
+                'timeout'
+            timeouts[0] += 1
         finally:
             signal.setitimer(signal.ITIMER_REAL, 0)
         acc.evals += 1
@@ -272,7 +283,21 @@ def run_unit(unit, tier):
         for key, msg in viols:
             acc.violation(key, '%s\n%s' % (msg, label), payload)
         acc.outcome(outcome)
+        if timeouts[0] >= MAX_TIMEOUTS_PER_UNIT:
+            # every further hanging input would cost another watchdog
+            # period: stop this unit, the violation is already recorded
+            acc.cap_hit = True
+            raise UnitAborted()
 
+    timeouts = [0]
+    try:
+        _run_unit_body(unit, tier, acc, one)
+    except UnitAborted:
+        pass
+    return acc
+
+
+def _run_unit_body(unit, tier, acc, one):
     fs = base_files(tier)
     if unit[0] == 'bytes':
         _, fi, lo, hi = unit
@@ -339,11 +364,19 @@ def run_unit(unit, tier):
         if a == 0 and b == 0:
             for x in RAW:
                 one(x, {'kind': 'data', 'data': to_jsonable(x)})
-    return acc
 
 
 def replay(payload):
     if payload.get('kind') != 'data':
         return []
-    viols, outcome = check_bytes(from_jsonable(payload['data']))
+    data = from_jsonable(payload['data'])
+    signal.signal(signal.SIGALRM, _alarm)
+    signal.setitimer(signal.ITIMER_REAL, WATCHDOG_S)
+    try:
+        viols, outcome = check_bytes(data)
+    except Timeout:
+        viols = [('does-not-terminate', 'no result within %d s'
+                  % WATCHDOG_S)]
+    finally:
+        signal.setitimer(signal.ITIMER_REAL, 0)
     return [{'key': k, 'msg': m} for k, m in viols]
